@@ -24,7 +24,8 @@ def applySpec (ops : Ops K D T) (ns N : Nat) (child : D → T → Option T) (k :
     match ops.action d with
     | .add b =>
       let t := ops.fromKey N k
-      (child d (ops.setNames t ((ops.names t).set ns (some b)))).map some
+      if ns ≠ 0 ∧ (ops.names t)[ns]? = some .none
+      then (child d (ops.setNames t ((ops.names t).set ns (some b)))).map some else .none
     | _ => .none
   | some d, some t =>
     match ops.action d with
@@ -175,14 +176,9 @@ def scalar (c : Nat) : Bool := c < 55296 || (57343 < c && c < 1114112)
 /-- a cell that survives a line of text: no TAB, LF, CR; scalar values only -/
 def plainCell (s : JStr) : Bool := s.all fun c => !(c == 9 || c == 10 || c == 13) && scalar c
 
-/-- a comment that survives: not empty, no TAB / CR, no backslash directly followed by `n`; scalar values only -/
-def plainDoc : JStr → Bool
-  | [] => false
-  | s => (s.all fun c => !(c == 9 || c == 13) && scalar c) && noBsN s
-where noBsN : List Nat → Bool
-  | 92 :: 110 :: _ => false
-  | _ :: rest => noBsN rest
-  | [] => true
+/-- a comment that survives: not empty (an empty cell means "absent"); scalar values only. TAB, LF, CR and backslash are
+escaped by the writer and decoded by the reader -/
+def plainDoc (s : JStr) : Bool := s != [] && s.all scalar
 
 def nameCell (valid : JStr → Bool) (s : JStr) : Bool := valid s && plainCell s
 
@@ -199,7 +195,7 @@ def writableClass (e : JStr × CDiff) : Bool :=
     actionAll plainDoc e.2.doc && e.2.fields.all writableField && e.2.methods.all writableMethod
 
 /-- **Writable**: the diffs whose specification text the reader reads back (as `normDiff d`): unique keys, valid names
-without TAB/LF/CR, non-empty comments without TAB/CR and without the two-character sequence backslash-`n`, no surrogate code points
+without TAB/LF/CR, non-empty comments, no surrogate code points
 (the text is UTF-8), parameter indices below 2^64, no action on the namespace name, no change of the top-level comment (`None` or `Edit(a, a)`): the
 format has no syntax for either (`TinyDiff.read` always returns `info = doc = None`) -/
 def Writable (d : Diff) : Prop :=
